@@ -25,6 +25,7 @@ type LoopSpec struct {
 	Invs        []*Clause
 	Decreases   *Clause
 	IterEnsures []*Clause // checked at the end of every iteration; it(e) is e at the start of the iteration
+	Assumes     []*Clause // assumed at the loop head without proof (stated assumptions, reported in the evidence)
 	Name        string    // loops addressed by name (label, or loopname binding) instead of by ordinal
 }
 
@@ -92,7 +93,7 @@ type ChanSpec struct {
 }
 
 var reFuncHdr = regexp.MustCompile(`^func\s*(?:\(\s*(\w+)\s+\*?([\w.]+)\s*\)\s*)?([\w#.]+)\s*(?:\(([^)]*)\))?\s*(.*)$`)
-var reClause = regexp.MustCompile(`^(requires|ensures|effect|assume_acq|invariant|decreases|assert|iter_ensures)(?:\[([\w@ ,.+-]+)\])?\s+(.*)$`)
+var reClause = regexp.MustCompile(`^(requires|ensures|effect|assume_acq|assume|invariant|decreases|assert|iter_ensures)(?:\[([\w@ ,.+-]+)\])?\s+(.*)$`)
 var reLoop = regexp.MustCompile(`^loop\s+(\w+)\s*:\s*(.*)$`)
 
 func (p *Prog) loadContracts(files ...string) error {
@@ -460,6 +461,8 @@ func (p *Prog) loadContractFile(path string) error {
 			}
 			if cm[1] == "decreases" {
 				ls.Decreases = c
+			} else if cm[1] == "assume" {
+				ls.Assumes = append(ls.Assumes, c)
 			} else if cm[1] == "iter_ensures" {
 				ls.IterEnsures = append(ls.IterEnsures, c)
 			} else {
